@@ -96,6 +96,21 @@ def check_atomic_lock(ctx, prog):
         else:
             ctx.ok('R-LOCK', f['pq'], f['n'] + f['sig'] + ':lock scope', fwhere(f), 'every access to the value lies in the lifetime of one guard on the mutex (%d access(es))' % len(acc))
     ctx.floor('R-LOCK Atomic members', n, 40)
+    # the mutex the guards lock exists before any thread can use the object: a member of type Mutex (constructed with the object),
+    # not something created on first use by an unsynchronised conversion - two first users would lock two different mutexes
+    recs = [r for r in prog.records if r.startswith('asl::Atomic<')]
+    lazy = None
+    for rq in recs:
+        for fl in prog.records[rq].get('fields', []):
+            ft = T(prog.records[rq], fl['t'])
+            if 'utex' in fl['n'] and ft.get('rec') and ft.get('rec') != 'asl::Mutex' and not ft.get('ref') and not ft.get('ptr'):
+                for g in prog.functions:
+                    if g.get('cls') == ft['rec'] and g.get('body') and (g.get('n') or '').startswith('operator') and 'Mutex' in (g.get('n') or ''):
+                        if any(w.get('k') == 'new' or (w.get('k') == 'bin' and w.get('op') == '=' and strip_lv(w['x']).get('k') == 'mem') for w in fn_exprs(g)):
+                            lazy = lazy or (rq, fl['n'], ft['rec'], g)
+    ctx.check(lazy is None, 'R-LOCK', 'asl::Atomic', 'mutex:constructed with the object', fwhere(lazy[3]) if lazy else '', 'the guards lock a Mutex member that exists from construction',
+              'the mutex of %s is a `%s` (member `%s`) whose conversion to Mutex& creates or assigns the mutex on first use, outside any lock: two threads making the first access lock two different mutexes and their updates are lost' % (
+                  lazy[0] if lazy else '', lazy[2] if lazy else '', lazy[1] if lazy else ''))
     # Lock and Locked pair lock()/unlock()
     for cls, field in (('asl::Lock', '_m'), ('asl::Locked', 'x')):
         ctors = [f for f in prog.functions if f.get('clsp') == cls and f.get('kind') == 'ctor' and not f.get('implicit') and not f.get('copyctor')]
